@@ -351,11 +351,11 @@ pub fn check_program(ctx: &Ctx, nodes: &[Node], tag: &str) {
     let src = ir::print_canonical(nodes);
     let files = layout::single(nodes.to_vec());
     let reference = layout::assemble(&files);
-    verif::enable(verif::LAYOUT);
+    fw::hook_enable(verif::LAYOUT);
     let _ = verif::take();
     let out = fw::build_str(&src);
     let events = verif::take();
-    verif::enable(0);
+    fw::hook_enable(0);
     ctx.eval(1);
     let replay = |extra: Value| json!({"source": src, "tag": tag, "detail": extra, "observed": out.brief()});
     match (&reference, &out) {
